@@ -428,6 +428,24 @@ def run_nonfinite(c, rec):
                 if K.iface == "experimental" and hasattr(s, "current_target_logd"):
                     got = float(np.asarray(s.current_target_logd).reshape(-1)[0])
                     require(close(got, T.f(new), 1e-10), "CWMH: the cached log-density does not belong to the state after the sweep", cached=got, true=T.f(new))
+        # the current state itself outside the support, and so is every candidate of the sweep: nothing may be accepted
+        T2 = make_target(c, bad=(w, -1e300, val))
+        K2 = Kernel(c, T2)
+        for u in (1e-300, 0.5):
+            refused, s2 = refuses(lambda: K2.fresh(x, scale))
+            if refused:
+                rec.count("construction_refused_outside_support")
+                break
+            refused, out = refuses(lambda: K2.transition(s2, x, xi, [u] * n))
+            if refused:
+                if isinstance(out, Violation) and "harness" not in str(out):
+                    raise out
+                rec.count("transition_raised_outside_support")
+                continue
+            new = out[0]
+            rec.count("from_outside_support:stay_outside")
+            require(maxdiff(new, x) == 0, f"CWMH ({c['interface']}): from a state whose own log-density is {c['bad_value']} component proposals "
+                    f"with log-density {c['bad_value']} were accepted (u = {u})", x=x, new=new)
         return
     a_x, B_x = measure_proposal(K0, x, scale)
     xp = a_x + B_x @ xi
@@ -456,6 +474,34 @@ def run_nonfinite(c, rec):
         require(maxdiff(new, x) == 0,
                 f"{c['sampler']} ({c['interface']}): a proposal whose target log-density is {c['bad_value']} was accepted (u = {u})",
                 x=x, proposal=xp, new=new)
+    # the current state itself outside the support (a chain started there): a proposal that is outside as well is still never
+    # accepted, and a proposal inside the support has acceptance probability min(1, pi(x')/0) = 1
+    if c["sampler"] == "MALA" and c.get("bad_grad") == "nan":
+        return
+    for label, region in (("stay_outside", (w, -1e300, val)), ("to_support", (-w, -thr, val))):
+        if label == "to_support" and c["bad_value"] != "-inf":
+            continue
+        T2 = make_target(c, bad=region)
+        K2 = Kernel(c, T2)
+        for u in (1e-300, 0.5, 1 - 1e-12):
+            refused, s2 = refuses(lambda: K2.fresh(x, scale))
+            if refused:
+                rec.count("construction_refused_outside_support")
+                break
+            refused, out = refuses(lambda: K2.transition(s2, x, xi, [u]))
+            if refused:
+                if isinstance(out, Violation) and "harness" not in str(out):
+                    raise out
+                rec.count("transition_raised_outside_support")
+                continue
+            new, prop, _ = out
+            rec.count("from_outside_support:" + label)
+            if label == "stay_outside":
+                require(maxdiff(new, x) == 0, f"{c['sampler']} ({c['interface']}): from a state whose own log-density is {c['bad_value']} a proposal "
+                        f"with log-density {c['bad_value']} was accepted (u = {u})", x=x, proposal=prop[0], new=new)
+            elif np.isfinite(T2.f(prop[0])):
+                require(maxdiff(new, prop[0]) <= 1e-12 * (1 + np.max(np.abs(prop[0]))), f"{c['sampler']} ({c['interface']}): from a state of log-density "
+                        f"-inf a proposal inside the support (acceptance probability 1) was rejected (u = {u})", x=x, proposal=prop[0], new=new)
 
 
 # ----------------------------------------------------------------------------- CWMH sweeps
